@@ -67,10 +67,21 @@ def _canon_crash(rest: str, objs: dict):
     return "crash: %s in %s" % (kind, fn), kind, fn
 
 
+class _DedupPart(core.Part):
+    """Part.violation keeps at most 50 records: record each canonical key once per job so that no key is dropped."""
+
+    def violation(self, key, what, replay=None):
+        seen = self.__dict__.setdefault("_seen", set())
+        if key in seen:
+            return
+        seen.add(key)
+        core.Part.violation(self, key, what, replay)
+
+
 def _job(job):
     """one driver process: shard `shard` of `nshards` of the automatically determined range [0, top) of one scenario."""
     variant, exe, xmlpath, name, shard, nshards, stride, cstride, nstep = job
-    part = core.Part()
+    part = _DedupPart()
     objs = rx.objs_for(variant, exe)
     res = rx.run([exe, xmlpath, "auto", shard, nshards, stride, nstep, 251, cstride])
     if res.rc != 0:
